@@ -225,7 +225,7 @@ func shapesOf(k int) []*shape {
 	return out
 }
 
-func c02TreeRun(w *run.Worker, k int, natoms int) {
+func c02TreeRun(w *run.Worker, d dctx, k int, natoms int) {
 	atoms := c02Atoms()[:natoms]
 	ops := c02BinOps
 	for _, sh := range shapesOf(k) {
@@ -257,7 +257,7 @@ func c02TreeRun(w *run.Worker, k int, natoms int) {
 					_ = hasZeroDiv
 					p := &Prog{Scripts: map[string][]*rt.Node{"s.p": {rt.Call("p", rt.Str("="), e)}}, Main: "s.p", Point: PointSpec{Meas: "m"}}
 					w.Eval()
-					v := Differential(p)
+					v := d.diff(p)
 					w.Outcome(v.Outcome)
 					if v.Skipped != "" {
 						w.Note("unspecified_cells_skipped", 1)
@@ -267,7 +267,7 @@ func c02TreeRun(w *run.Worker, k int, natoms int) {
 						for _, x := range opIdx {
 							opsUsed = append(opsUsed, ops[x])
 						}
-						w.Violate("C02:tree:"+strings.Join(opsUsed, ",")+":"+c02Class(v), v.What, c02Case{Form: "tree", Tree: src})
+						w.Violate(d.id+":tree:"+strings.Join(opsUsed, ",")+":"+c02Class(v), v.What, c02Case{Form: "tree", Tree: src})
 					} else if w.WantSample() && k == 2 && opIdx[0] == 5 {
 						w.Sample(map[string]any{"program": p.Sources()["s.p"], "trace": v.Real.Trace})
 					}
@@ -334,12 +334,13 @@ func c02Run(w *run.Worker) {
 		}
 	}
 	// (B) trees with probed leaves: evaluation order, exactly-once, short-circuit
-	c02TreeRun(w, 1, 8)
-	c02TreeRun(w, 2, 8)
+	d := dctx{id: "C02", diff: Differential}
+	c02TreeRun(w, d, 1, 8)
+	c02TreeRun(w, d, 2, 8)
 	if w.Thorough {
-		c02TreeRun(w, 3, 6)
+		c02TreeRun(w, d, 3, 6)
 	} else {
-		c02TreeRun(w, 3, 2)
+		c02TreeRun(w, d, 3, 2)
 	}
 }
 
